@@ -133,6 +133,11 @@ def _nearest(ctx, p, fn, b, bi, t, info):
     tt = fn.arg_terms(t, 3, bi)
     n = next(iter(tt)) if len(tt) == 1 else None
     dmin = None
+    if n is not None and n[0] == 'call' and n[1] == 'core::f64::<impl f64>::min' and len(n[2]) == 2:
+        # t = min(max/d, 1.0)
+        for side in n[2]:
+            if len(side) == 1 and next(iter(side))[0] == 'binop' and next(iter(side))[1] == 'Div':
+                n = next(iter(side))
     if n is not None and n[0] == 'binop' and n[1] == 'Div':
         dmin = n[3]
     lo_seen = None
@@ -469,24 +474,44 @@ def _balance(ctx, p, r_bal):
             if n[0] != 'binop' or n[1] not in ('Lt', 'Le', 'Gt', 'Ge'):
                 continue
 
-            def is_len_of(ts, cname):
-                return bool(ts) and all(m[0] == 'call' and m[1] == VEC_LEN and
-                                        all(c[0] == 'field' and c[2] == cname for c in m[2][0]) for m in ts)
-            if is_len_of(n[2], start_c) and any(is_len_of(n[3], o) for o in other_c):
-                sel = (blk, n[1], tmap['0'], other, False)
-            elif is_len_of(n[3], start_c) and any(is_len_of(n[2], o) for o in other_c):
-                sel = (blk, n[1], tmap['0'], other, True)
+            def len_of(ts, cnames):
+                """ts == len(self.<c>) [+ k]  ->  (container name, k)"""
+                if len(ts) != 1:
+                    return None
+                m = next(iter(ts))
+                k = 0
+                if m[0] == 'field' and m[2] == '0' and len(m[1]) == 1:
+                    m = next(iter(m[1]))
+                if m[0] == 'binop' and m[1] in ('Add', 'AddWithOverflow', 'AddUnchecked', 'Sub', 'SubWithOverflow', 'SubUnchecked') and \
+                        len(m[2]) == 1 and len(m[3]) == 1 and next(iter(m[3]))[0] == 'const':
+                    try:
+                        k = int(next(iter(m[3]))[1]) * (1 if m[1].startswith('Add') else -1)
+                    except ValueError:
+                        return None
+                    m = next(iter(m[2]))
+                if m[0] == 'call' and m[1] == VEC_LEN and len(m[2][0]) == 1:
+                    c = next(iter(m[2][0]))
+                    if c[0] == 'field' and c[2] in cnames:
+                        return (c[2], k)
+                return None
+            la, lb = len_of(n[2], set(p['containers'])), len_of(n[3], set(p['containers']))
+            if la and lb and {la[0], lb[0]} == {start_c} | set(other_c[:1]) and la[0] != lb[0]:
+                sel = (blk, n[1], tmap['0'], other, la, lb)
         if sel is None:
             r_bal.violations.append(Violation('C16', 'C16.balance', b.path, 'no-selection',
                                               'no comparison of the two tree sizes selects the tree to grow', loc=b.loc(0)))
             continue
-        blk, op, f_t, t_t, flipped = sel
-        # relation of |start| vs |goal| on each edge
-        rel_true = set(REL[(op, True)]) - {'un'}
-        rel_false = set(REL[(op, False)]) - {'un'}
-        if flipped:
-            rel_true = {FLIP[x] for x in rel_true}
-            rel_false = {FLIP[x] for x in rel_false}
+        blk, op, f_t, t_t, la, lb = sel
+        # relation of |start| vs |goal| on each edge, by enumeration over small sizes (offsets included)
+        import operator
+        fop = {'Lt': operator.lt, 'Le': operator.le, 'Gt': operator.gt, 'Ge': operator.ge}[op]
+        rel_true, rel_false = set(), set()
+        for sv in range(0, 6):
+            for gv in range(0, 6):
+                av = (sv if la[0] == start_c else gv) + la[1]
+                bv = (sv if lb[0] == start_c else gv) + lb[1]
+                rel = 'lt' if sv < gv else ('eq' if sv == gv else 'gt')
+                (rel_true if fop(av, bv) else rel_false).add(rel)
         # which tuple literal is built on each edge: component 0 = tree grown first
         arms = {}
         for e in fn.events():
